@@ -1,5 +1,6 @@
 """Shared rule functions over emit_batcher (serve C06, C07, C08, C09)."""
 import itertools
+import json
 import re
 
 from . import common, mir
@@ -1292,6 +1293,54 @@ def lossless_variants(chk, P, prefix):
     chk.ob("%s.R2:lossless-variants" % prefix, "blocking, fallible and async sends never go through the truncating send", f)
 
 
+def item_always_handed_on(chk, P, prefix):
+    """The blocking send wrappers (sync / tokio) pick *how* to wait - park, block_in_place, poll - but on every path they hand the item to a
+    send routine: a path that returns without having done so has dropped the item, neither enqueued nor handed back (BatchError::no_retry
+    cannot carry it)."""
+    def f():
+        ev = []
+        for k in ("emit_batcher::sync::blocking_send", "emit_batcher::tokio::blocking_send", "emit_batcher::tokio::send"):
+            if not P.has_body(k):
+                continue
+            b = P.body(k)
+            x = b
+            want = ("param", 2)
+            sinks = set()
+            for c in x.calls(normal_only=True):
+                if not (c.callee.get("path") or c.callee.get("full") or "").startswith(("emit_batcher::", "tokio::task::")) and c.callee.get("name") not in ("block_in_place",):
+                    continue
+                for a in c.args:
+                    if want in common.roots(x.origin(a)):
+                        sinks.add(c.bb)
+            # an `async fn` hands everything to its coroutine: the rule is applied to the coroutine body instead
+            aggs = [st for bb, j, st in x.statements(normal_only=True) if st["k"] == "assign" and st["rv"]["k"] == "agg" and st["rv"].get("ak") == "coroutine"]
+            if aggs and not sinks:
+                cb = P.body(aggs[0]["rv"]["def"])
+                idx = None
+                for i, op in enumerate(aggs[0]["rv"].get("ops") or []):
+                    if mir.o_is_param(x.origin(op), idx=2):
+                        idx = i
+                if idx is None:
+                    return False, "%s does not move the item into its future" % k, [], b.span
+                name = (aggs[0]["rv"].get("fields") or [None] * (idx + 1))[idx]
+                x = cb
+                for c in x.calls(normal_only=True):
+                    if not (c.callee.get("path") or "").startswith("emit_batcher::"):
+                        continue
+                    if any(("capture", name) in common.roots(x.origin(a)) for a in c.args):
+                        sinks.add(c.bb)
+            if not sinks:
+                return False, "%s never hands its item to a send routine" % k, [], b.span
+            if not x.must_pass(sinks):
+                return False, ("%s can return without having handed its item to a send routine: on that path the item is dropped - not enqueued, and "
+                               "not returned to the caller in the error" % k), [], b.span
+            ev.append("%s: every return passes a call that takes the item (%d sites)" % (k, len(sinks)))
+        if len(ev) < (1 if getattr(chk, "_overlay", None) else 3):
+            raise mir.AnchorMissing("blocking send wrappers (found %d)" % len(ev))
+        return True, "", ev
+    chk.ob("%s.R2:item-always-handed-on" % prefix, "every path through a blocking / async send wrapper gives the item to a send routine", f)
+
+
 def send_rules(chk, P, prefix):
     def send():
         b = P.body(S + "send")
@@ -1532,6 +1581,32 @@ def channel_impls(chk, P, prefix):
                                 return False, ("%s::clear sets `%s` to %s, not 0 (through %s): after an overflow truncation the emptied "
                                                "channel still claims the size of what was discarded, so the next batch looks too big for the "
                                                "current file" % (st, nn[1][0], o_str(x.origin(st_["rv"]["op"])), x.key.split("::")[-1])), [], clearb.span
+            # a collection field is reset by emptying it *entirely*: clear(), truncate(0), drain(..) over the full range, take/replace - not by
+            # removing a prefix or a computed part of it (the sender-side batch has index 0: `drain(..index)` removes nothing)
+            for x in expand(clearb):
+                for c in x.calls(normal_only=True):
+                    nm = c.callee.get("name")
+                    if nm not in ("truncate", "drain", "retain", "split_off", "drain_filter", "extract_if", "dedup", "pop", "remove", "swap_remove"):
+                        continue
+                    nn = mir.o_field_path(x.origin(c.args[0], through_calls=("deref_mut", "deref")))
+                    if not (nn[0][0] == "param" and nn[0][1] == 1 and nn[1]):
+                        continue
+                    total = False
+                    if nm == "truncate" and len(c.args) > 1:
+                        total = mir.o_const_value(x.origin(c.args[1])) == 0
+                    elif nm == "drain" and len(c.args) > 1:
+                        a = c.args[1]
+                        ty = x.local_ty(a.get("m", a.get("c", {})).get("l")) if isinstance(a, dict) and ("m" in a or "c" in a) else None
+                        ao = x.origin(a)
+                        total = (ty or "").endswith("RangeFull") or (ao[0] in ("agg", "const") and "RangeFull" in json.dumps(ao[1], default=str))
+                    elif nm == "retain" and len(c.args) > 1:
+                        ao = x.origin(c.args[1])
+                        if ao[0] == "agg" and ao[1].get("ak") == "closure" and P.has_body(ao[1].get("def")):
+                            total = mir.o_const_value(P.body(ao[1]["def"]).origin(0)) in (False, 0)
+                    if not total:
+                        return False, ("%s::clear only removes part of `%s` (`%s(%s)`): an overflow truncation must leave the channel empty, or the pending "
+                                       "queue keeps growing past max_capacity while every send counts a truncation" %
+                                       (st, nn[1][0], nm, ", ".join(o_str(x.origin(a)) for a in c.args[1:]))), [], c.loc
             missing = sorted(accounting - cleared)
             if missing:
                 return False, ("%s::clear leaves the field(s) %s untouched, which push() updates or len() reads: after an "
